@@ -3,6 +3,9 @@
 use crate::checker::{Checker, EventuallyBits, Expectation, Path};
 use crate::job_market::JobBroker;
 use crate::{fingerprint, CheckerBuilder, CheckerVisitor, Fingerprint, Model, Property};
+#[cfg(getong_stateright_verif)]
+use crate::verif::dash::{DashMap, DashSet};
+#[cfg(not(getong_stateright_verif))]
 use dashmap::{DashMap, DashSet};
 use nohash_hasher::NoHashHasher;
 use std::collections::{HashMap, VecDeque};
